@@ -90,8 +90,12 @@ Definition cov_size (c : covform) : nat :=
   match c with
   | CScalar _ => 1
   | CVector v => length v
-  | CMatrix M | CSparse M => fold_right (fun r s => (length r + s)%nat) 0%nat M
+  | CMatrix M => fold_right (fun r s => (length r + s)%nat) 0%nat M
+  | CSparse M => fold_right (fun r s => (length (filter (fun a => negb (qc_is0 a)) r) + s)%nat) 0%nat M   (* np.size of a scipy matrix = nnz *)
   end.
+
+(* a scipy-sparse covariance with ONE stored entry passes `np.size(C)==1` and then fails at C.ravel(): AttributeError *)
+Definition sparse_single (c : covform) : bool := match c with CSparse _ => Nat.eqb (cov_size c) 1 | _ => false end.
 
 Definition cov_first (c : covform) : Qc :=
   match c with
@@ -113,7 +117,7 @@ Definition expand_cov (fixed : bool) (dim : nat) (c : covform) : npcov :=
        | CMatrix M | CSparse M => NMat M
        end.
 
-Inductive outcome := Val (x : qv) | ENotImpl | EValue | ELinAlg.
+Inductive outcome := Val (x : qv) | ENotImpl | EValue | ELinAlg | EAttr.
 
 (* ------------------------------------------------------------------------------------------------
    BayesianProblem.MAP, closed-form branch, statement by statement
@@ -157,7 +161,8 @@ Definition map_direct (fixed : bool) (m n : nat) (A : qm) (b x0 : qv) (ce cx : o
   | Some ce =>
     match cx with
     | None => ENotImpl
-    | Some cx => map_core m n A b x0 (expand_cov fixed m ce) (expand_cov fixed n cx)
+    | Some cx => if sparse_single ce || sparse_single cx then EAttr
+                 else map_core m n A b x0 (expand_cov fixed m ce) (expand_cov fixed n cx)
     end
   end.
 
@@ -219,6 +224,7 @@ Definition sample_direct (fixed : bool) (m n : nat) (A : qm) (b x0 : qv) (ce cx 
     match cx with
     | None => SErr ENotImpl
     | Some cx' =>
+      if sparse_single ce' || sparse_single cx' then SErr EAttr else
       let Ce := expand_cov fixed m ce' in let Cx := expand_cov fixed n cx' in
       match map_core m n A b x0 Ce Cx with
       | Val mu =>
@@ -281,7 +287,8 @@ Definition sample_route_direct (P : pinfo) (max_dim_inv : nat) : bool :=
 
 (* sample_posterior: the whole cascade.  joint = the target is still a JointDistribution;
    prior_sptm = hasattr(prior, "sqrtprecTimesMean"); lik_sqrtprec = hasattr(likelihood.distribution, "sqrtprec") *)
-Inductive sampler_choice := SGibbs | SMapCholesky | SLinearRTO | SUGLA | SNUTS | SpCN | SRegLinearRTO | SNotImplemented.
+Inductive sampler_choice := SGibbs | SMapCholesky | SLinearRTO | SUGLA | SNUTS | SpCN | SRegLinearRTO | SNotImplemented
+                         | SProbeRaises.
 Definition sample_route (joint : bool) (P : pinfo) (prior_sptm lik_sqrtprec : bool) (max_dim_inv : nat) : sampler_choice :=
   if joint then SGibbs else
   if sample_route_direct P max_dim_inv then SMapCholesky else
@@ -306,12 +313,12 @@ Definition solve_max_point_setup (P : pinfo) (density_has_grad : bool) (x0 : opt
 Definition tol8 : Q := 1 # 100000000.
 Definition tol4 : Q := 1 # 10000.
 
-Inductive obs := OVal (x : list Q) | ONotImpl | OValue | OLinAlg | OOther.
+Inductive obs := OVal (x : list Q) | ONotImpl | OValue | OLinAlg | OOther | OAttr.
 
 Definition outcome_matches (tol : Q) (o : outcome) (w : obs) : bool :=
   match o, w with
   | Val x, OVal y => qcl_close tol (qvec y) x
-  | ENotImpl, ONotImpl | EValue, OValue | ELinAlg, OLinAlg => true
+  | ENotImpl, ONotImpl | EValue, OValue | ELinAlg, OLinAlg | EAttr, OAttr => true
   | _, _ => false
   end.
 
@@ -417,7 +424,7 @@ Definition check_setup (P : pinfo) (density_has_grad : bool) (x0 : option (list 
 (* observed: the index of the _sample* method sample_posterior called (7 = NotImplementedError raised) *)
 Definition sampler_index (c : sampler_choice) : nat :=
   match c with SGibbs => 0 | SMapCholesky => 1 | SLinearRTO => 2 | SUGLA => 3 | SNUTS => 4 | SpCN => 5
-             | SRegLinearRTO => 6 | SNotImplemented => 7 end%nat.
+             | SRegLinearRTO => 6 | SNotImplemented => 7 | SProbeRaises => 8 end%nat.
 Definition check_cascade (joint : bool) (P : pinfo) (prior_sptm lik_sqrtprec : bool) (max_dim_inv observed : nat) : bool :=
   Nat.eqb (sampler_index (sample_route joint P prior_sptm lik_sqrtprec max_dim_inv)) observed.
 
@@ -459,3 +466,86 @@ Definition check_map_entry (fixed : bool) (m n : nat) (A : list (list Q)) (b x0 
 
 (* under-determined full-row-rank systems: the likelihood is maximal exactly on { x : A x = b } *)
 Definition check_ml_under (A : list (list Q)) (b x : list Q) : bool := qcl_close tol4 (qmatvec (qmat A) (qvec x)) (qvec b).
+
+(* the gradient probe of branch 5 (posterior.gradient at zeros) may raise something other than NotImplementedError /
+   AttributeError (a Cauchy likelihood: TypeError): sample_posterior then fails -- but only if the cascade gets that far *)
+Definition sample_route_x (joint : bool) (P : pinfo) (prior_sptm lik_sqrtprec : bool) (max_dim_inv : nat) (probe_raises : bool)
+  : sampler_choice :=
+  match sample_route joint P prior_sptm lik_sqrtprec max_dim_inv with
+  | SGibbs => SGibbs | SMapCholesky => SMapCholesky | SLinearRTO => SLinearRTO | SUGLA => SUGLA
+  | r => if probe_raises then SProbeRaises else r
+  end.
+Definition check_cascade_x (joint : bool) (P : pinfo) (prior_sptm lik_sqrtprec : bool) (max_dim_inv : nat) (probe_raises : bool)
+           (observed : nat) : bool :=
+  Nat.eqb (sampler_index (sample_route_x joint P prior_sptm lik_sqrtprec max_dim_inv probe_raises)) observed.
+
+(* ------------------------------------------------------------------------------------------------
+   the hand-over to the chosen sampler: class, constructor arguments, run protocol, what is returned
+   ------------------------------------------------------------------------------------------------ *)
+Inductive run_call := RSample (ns nb : nat) | RSampleAdapt (ns nb : nat) | RWarmup (nb : nat) | RSampleN (ns : nat)
+                    | RGetSamples | RBurnthin (nb : nat).
+Definition run_call_eqb (a b : run_call) : bool :=
+  match a, b with
+  | RSample x y, RSample x' y' | RSampleAdapt x y, RSampleAdapt x' y' => Nat.eqb x x' && Nat.eqb y y'
+  | RWarmup x, RWarmup x' | RSampleN x, RSampleN x' | RBurnthin x, RBurnthin x' => Nat.eqb x x'
+  | RGetSamples, RGetSamples => true
+  | _, _ => false
+  end.
+(* Nb = None: int(0.2*Ns) *)
+Definition burnin (ns : nat) (nb : option nat) : nat := match nb with Some b => b | None => Nat.div ns 5 end.
+
+Record handover := { h_experimental_module : bool;   (* class looked up in cuqi.experimental.mcmc, else cuqi.sampler *)
+                     h_class : nat;                  (* sampler_index of the class; pCN is `pCN` / `PCN` *)
+                     h_scale : option Q;             (* extra positional argument (pCN: 0.02) *)
+                     h_regopts : bool;               (* maxit=100, stepsize="automatic", abstol=1e-10 *)
+                     h_calls : list run_call }.
+Definition handover_model (c : sampler_choice) (experimental : bool) (ns : nat) (nb : option nat) : option handover :=
+  let b := burnin ns nb in
+  let proto (adapt : bool) := if experimental then [RWarmup b; RSampleN ns; RGetSamples; RBurnthin b]
+                              else if adapt then [RSampleAdapt ns b] else [RSample ns b] in
+  match c with
+  | SLinearRTO => Some {| h_experimental_module := experimental; h_class := 2; h_scale := None; h_regopts := false; h_calls := proto false |}
+  | SUGLA => Some {| h_experimental_module := experimental; h_class := 3; h_scale := None; h_regopts := false; h_calls := proto false |}
+  | SNUTS => Some {| h_experimental_module := experimental; h_class := 4; h_scale := None; h_regopts := false; h_calls := proto true |}
+  | SpCN => Some {| h_experimental_module := experimental; h_class := 5; h_scale := Some (5764607523034235 # 288230376151711744)%Q (* the float literal 0.02 *); h_regopts := false; h_calls := proto true |}
+  | SRegLinearRTO => Some {| h_experimental_module := experimental; h_class := 6; h_scale := None; h_regopts := true; h_calls := proto false |}
+  | _ => None
+  end.
+(* observed from recording stub classes: module, class, positional scale, the three fixed options, the calls made on the
+   sampler object in order; and three booleans: target is the problem's posterior, callback is the caller's, the value
+   returned by sample_posterior is what the last call returned *)
+Definition check_handover (c_obs : nat) (experimental : bool) (ns : nat) (nb : option nat)
+           (o_exp : bool) (o_class : nat) (o_scale : option Q) (o_regopts : bool) (o_calls : list run_call)
+           (target_ok callback_ok returned_ok : bool) : bool :=
+  let c := match c_obs with 2%nat => SLinearRTO | 3%nat => SUGLA | 4%nat => SNUTS | 5%nat => SpCN | 6%nat => SRegLinearRTO | _ => SGibbs end in
+  match handover_model c experimental ns nb with
+  | Some h => Bool.eqb (h_experimental_module h) o_exp && Nat.eqb (h_class h) o_class
+              && opt_eqb Qeq_bool (h_scale h) o_scale && Bool.eqb (h_regopts h) o_regopts
+              && list_eqb run_call_eqb (h_calls h) o_calls && target_ok && callback_ok && returned_ok
+  | None => false
+  end.
+
+(* rank-deficient systems: the maximisers of the likelihood are exactly the solutions of the normal equations
+   A^T Pe A x = A^T Pe b (Props: C15_concave_stationary_iff_maximiser) -- the returned point must satisfy them *)
+Definition check_ml_stationary (m n : nat) (A : list (list Q)) (b : list Q) (ge : gdesc) (x : list Q) : bool :=
+  match qinv (dense_of true m (mk_cov (gd_kind ge) (gd_s ge) (gd_v ge) (gd_M ge))) with
+  | Some Pe => qcl_close tol4 (qmatvec (atpa n (qmat A) Pe) (qvec x)) (qmattvec n (qmat A) (qmatvec Pe (qvec b)))
+  | None => false
+  end.
+
+(* the hypotheses of C15_closed_form_equals_posterior_mean, decided on the instance that runs: shapes, checked inverses of
+   both covariances, symmetry of the noise precision, a checked inverse of the posterior precision *)
+Definition shape_ok (r c : nat) (M : qm) : bool := Nat.eqb (length M) r && forallb (fun row => Nat.eqb (length row) c) M.
+Definition hyps_ok (m n : nat) (A : qm) (b : qv) (ce cx : covform) : bool :=
+  let Ce := dense_of true m ce in let Cx := dense_of true n cx in
+  shape_ok m n A && shape_ok m m Ce && shape_ok n n Cx && Nat.eqb (length b) m &&
+  match qinv Ce, qinv Cx with
+  | Some Pe, Some Px => qcll_eqb (qtranspose m Pe) Pe
+                        && match qinv (post_prec n A Pe Px) with Some _ => true | None => false end
+  | _, _ => false
+  end.
+Definition check_hyps (m n : nat) (A : list (list Q)) (b : list Q) (ge gx : gdesc) : bool :=
+  match gd_cov m ge, gd_cov n gx with
+  | Some ce, Some cx => hyps_ok m n (qmat A) (qvec b) ce cx
+  | _, _ => false
+  end.
